@@ -2,6 +2,7 @@
 
 #include <sys/ioctl.h>
 #include <sys/stat.h>
+#include <sys/syscall.h>
 
 #include <thread>
 
@@ -47,6 +48,33 @@ int MakeReadFd(const uint8_t* data, size_t n) {
   ::lseek(fd, 0, SEEK_SET);
   ::unlink(path.c_str());
   return fd;
+}
+
+namespace {
+struct FlakySlot {
+  std::atomic<int> fd{-1};
+  std::atomic<unsigned> calls{0};
+};
+FlakySlot g_flaky[32];
+}  // namespace
+void MarkFlakyFd(int fd) {
+  for (auto& s : g_flaky) {
+    int expected = -1;
+    if (s.fd.compare_exchange_strong(expected, fd)) { s.calls.store(0); return; }
+  }
+}
+void UnmarkFlakyFd(int fd) {
+  for (auto& s : g_flaky) {
+    int expected = fd;
+    if (s.fd.compare_exchange_strong(expected, -1)) return;
+  }
+}
+// 0: not marked; otherwise 1 + the number of earlier calls on the descriptor
+static unsigned FlakyTick(int fd) {
+  if (fd < 0) return 0;
+  for (auto& s : g_flaky)
+    if (s.fd.load(std::memory_order_relaxed) == fd) return 1 + s.calls.fetch_add(1);
+  return 0;
 }
 
 struct BurstFeeder::Impl {
@@ -136,8 +164,9 @@ DynReader::DynReader(const ReaderSpec& spec, const uint8_t* data, size_t n) {
     int fd = feeder_->read_fd();
     if (spec.bounded) impl_.reset(new RBounded<nop::FdReader, false>(lim, fd));
     else impl_.reset(new RFd(fd));
-  } else if (k == "fd") {
+  } else if (k == "fd" || k == "fdintr") {
     int fd = MakeReadFd(heap_, n);
+    if (k == "fdintr") { flaky_fd_ = fd; MarkFlakyFd(fd); }
     if (spec.bounded) impl_.reset(new RBounded<nop::FdReader, false>(lim, fd));
     else impl_.reset(new RFd(fd));
   } else {
@@ -147,6 +176,7 @@ DynReader::DynReader(const ReaderSpec& spec, const uint8_t* data, size_t n) {
 }
 
 DynReader::~DynReader() {
+  if (flaky_fd_ >= 0) UnmarkFlakyFd(flaky_fd_);
   impl_.reset();
   feeder_.reset();
   delete[] heap_;
@@ -189,9 +219,10 @@ DynWriter::DynWriter(const WriterSpec& spec) : spec_(spec) {
     in_stream_.reset(new SW());
     if (spec.bounded) impl_.reset(new WBounded<SW>(in_stream_.get(), lim));
     else impl_.reset(new WRef<SW, true, false>(in_stream_.get()));
-  } else if (k == "fd") {
+  } else if (k == "fd" || k == "fdintr") {
     tmpfile_ = TempPath("wfd");
     int fd = ::open(tmpfile_.c_str(), O_WRONLY | O_CREAT | O_TRUNC, 0600);
+    if (k == "fdintr") { flaky_fd_ = fd; MarkFlakyFd(fd); }
     in_fd_.reset(new nop::FdWriter(fd));
     if (spec.bounded) impl_.reset(new WBounded<nop::FdWriter, false>(in_fd_.get(), lim));
     else impl_.reset(new WRef<nop::FdWriter, false, false>(in_fd_.get()));
@@ -202,6 +233,7 @@ DynWriter::DynWriter(const WriterSpec& spec) : spec_(spec) {
 }
 
 DynWriter::~DynWriter() {
+  if (flaky_fd_ >= 0) UnmarkFlakyFd(flaky_fd_);
   impl_.reset();
   in_fd_.reset();
   delete[] heap_;
@@ -219,7 +251,7 @@ std::vector<uint8_t> DynWriter::Output() {
   } else if (k == "sstream") {
     std::string s = in_stream_->stream().str();
     out.assign(s.begin(), s.end());
-  } else if (k == "fd") {
+  } else if (k == "fd" || k == "fdintr") {
     int fd = ::open(tmpfile_.c_str(), O_RDONLY);
     if (fd >= 0) {
       uint8_t buf[65536];
@@ -238,3 +270,24 @@ bool DynWriter::GuardIntact() const {
 }
 
 }  // namespace vf
+
+#if !defined(VF_TSAN)
+extern "C" ssize_t read(int fd, void* buf, size_t n) {
+  if (unsigned t = vf::FlakyTick(fd)) {
+    const unsigned c = t - 1;
+    if (c % 3 == 2) { errno = EINTR; return -1; }
+    const size_t most = 1 + (c / 3) % 3;
+    if (n > most) n = most;
+  }
+  return syscall(SYS_read, fd, buf, n);
+}
+extern "C" ssize_t write(int fd, const void* buf, size_t n) {
+  if (unsigned t = vf::FlakyTick(fd)) {
+    const unsigned c = t - 1;
+    if (c % 3 == 2) { errno = EINTR; return -1; }
+    const size_t most = 1 + (c / 3) % 3;
+    if (n > most) n = most;
+  }
+  return syscall(SYS_write, fd, buf, n);
+}
+#endif
